@@ -2,6 +2,7 @@
    printer of net/url, ParseRequestURI, lower-casing, IDNA and path cleaning are parameters: every theorem holds whatever
    they are (the host theorems under the stated, run-time validated assumptions about them). *)
 From GN Require Import Common.Base Gen.UrlTables Gen.UrlGlue Model.SearchParams Proofs.SearchParamsRoundTrip Model.UrlObject Model.UrlSrc Proofs.UrlObjectProofs.
+From GN Require Import Gen.UrlTables Model.UspSrc.
 Open Scope Z_scope.
 
 (* after every history of search/href assignments and searchParams append/delete/set/sort, interleaved with host, port,
@@ -64,3 +65,9 @@ Example C13_nonvacuous :
   Coh s /\ HostInv s /\ Forall wf_op ops /\
   get_search s' = [63;120;61;49;38;121;61;43] /\ get_params s' = [([120], [49]); ([121], [32])] /\ get_port s' = [] /\ get_host s' = [104].
 Proof. vm_compute. repeat split; try reflexivity; try discriminate; try (left; reflexivity); try (right; reflexivity); repeat constructor; try discriminate. Qed.
+
+(* the URLSearchParams code that url.searchParams hands out (and whose list the URL object shares) has the text the models of
+   C12 and of this property were written against *)
+Theorem C13_usp_source_tie : usp_src = expected_usp_src.
+Proof. vm_compute. reflexivity. Qed.
+Print Assumptions C13_usp_source_tie.
